@@ -248,15 +248,37 @@ def describe_env(env):
 
 
 def flat_and(x, out):
+    from ..sym import mk_not
     if x[0] == "bin" and x[1] == "BitAnd" and x[4] == "bool":
         flat_and(x[2], out)
         flat_and(x[3], out)
+    elif x[0] == "ite" and ty_of(x) == "bool" and x[2][0] == "c" and not x[2][1]:
+        flat_and(mk_not(x[1]), out)        # ite(c, false, e) = not c and e
+        flat_and(x[3], out)
+    elif x[0] == "ite" and ty_of(x) == "bool" and x[3][0] == "c" and not x[3][1]:
+        flat_and(x[1], out)                # ite(c, e, false) = c and e
+        flat_and(x[2], out)
+    elif x[0] == "un" and x[1] == "Not" and len(flat_or_(x[2], [])) > 1:
+        for d in flat_or_(x[2], []):       # not (a or b) = not a and not b
+            flat_and(mk_not(d), out)
     else:
         out.append(x)
     return out
 
 
-def decide_site(ctx, o, fixed_env=None):
+def earlier_asserted(obligations, o):
+    """asserted conditions of the panic sites recorded before `o` (program order along the analysed paths): reaching
+    `o` means they held, and each of them is decided on its own"""
+    out = []
+    for q in obligations:
+        if q is o:
+            break
+        if q.cond[0] != "c" and q.cond is not o.cond:
+            out.append(q.cond)
+    return out
+
+
+def decide_site(ctx, o, fixed_env=None, call_ranges=None, assume=None):
     """Exact decision of one panic site for *arbitrary* values of the atoms it mentions, by one of:
       - the bound prover on the asserted condition alone;
       - (overflow of an addition) the two operands never have a one in the same bit position;
@@ -273,19 +295,28 @@ def decide_site(ctx, o, fixed_env=None):
     elif prove_obligation(pdb, o.cond):
         return True, "bound prover"
     v = panic_node([o])
+    if assume and v[0] != "c":
+        from ..evals import substitute as _subst
+        ids_ = {id(c) for c in assume}
+        v = _subst(v, lambda nd: TRUE if id(nd) in ids_ else None)
     if v[0] == "c":
         return (True, "unreachable") if not v[1] else (False, {})
     # uninterpreted calls (a ranking left opaque, a contract) stand for arbitrary values of their type
     from ..evals import substitute
     opq = {}
+    ranges = {}
     for x in walk(v):
         if x[0] == "call" and (x[1].startswith("fn:") or x[1].startswith("contract:")) and ty_of(x) in INT_BITS:
-            opq.setdefault(id(x), (x, atom("$call%d" % len(opq), ty_of(x))))
+            if id(x) not in opq:
+                opq[id(x)] = (x, atom("$call%d" % len(opq), ty_of(x)))
+                for pre, rg in (call_ranges or {}).items():
+                    if x[1].startswith(pre):
+                        ranges[opq[id(x)][1][1]] = rg       # (the value of this call is known to lie in rg)
     if opq:
         v = substitute(v, lambda nd: opq[id(nd)][1] if id(nd) in opq else None)
     # comparisons only: the truth of the failure condition depends on the order type of its atoms among the
     # constants they are compared with — every order type enumerated
-    r_ = decide_by_order_types(ctx, v, fixed_env)
+    r_ = decide_by_order_types(ctx, v, fixed_env, ranges)
     if r_ is not None:
         return r_
     # the same after abstracting every non-constant operand of an ordering/equality comparison by a fresh value (an
@@ -444,7 +475,7 @@ def abstract_operands(v):
     return substitute(v, lambda nd: ops[id(nd)][1] if id(nd) in ops else None)
 
 
-def decide_by_order_types(ctx, v, fixed_env):
+def decide_by_order_types(ctx, v, fixed_env, ranges=None):
     from ..pdb import INT_BITS, is_signed
     from ..evals import children
     import itertools
@@ -474,7 +505,7 @@ def decide_by_order_types(ctx, v, fixed_env):
             if v2[0] == "c":
                 r = (True, "by cases") if not v2[1] else (False, fe)
             elif free:
-                r = decide_by_order_types(ctx, v2, fixed_env)
+                r = decide_by_order_types(ctx, v2, fixed_env, ranges)
             else:
                 r = (True, "by cases") if not cval(evaluate(pdb, v2, fe)) else (False, fe)
             if r is None or r[0] is not True:
@@ -507,9 +538,20 @@ def decide_by_order_types(ctx, v, fixed_env):
             if m1 < mid + d < m2:
                 pool.add(mid + d)
     pool = sorted(pool)
-    if len(pool) ** n > 60000:
+    pools = []
+    for a in free:
+        rg = (ranges or {}).get(a[1])
+        if rg:
+            extra = {rg[0], rg[1], min(rg[1], rg[0] + 1), max(rg[0], rg[1] - 1)}
+            pools.append(sorted({x for x in set(pool) | extra if rg[0] <= x <= rg[1]}))
+        else:
+            pools.append(pool)
+    size_ = 1
+    for p_ in pools:
+        size_ *= max(1, len(p_))
+    if size_ > 60000:
         return None
-    for combo in itertools.product(pool, repeat=n):
+    for combo in itertools.product(*pools):
         env = dict(fixed_env)
         env.update({a[1]: val for a, val in zip(free, combo)})
         try:
